@@ -34,7 +34,8 @@ for p in PROPS:
     })
 manifest = {
     'version': 1,
-    'setup_cmd': 'cd lean && lake build SshAudit driver ' + ' '.join(sorted(set(all_modules))),
+    # the generated Lean files are committed, but are regenerated first: a checkout whose generated files are stale must not fail the build
+    'setup_cmd': '/venv/bin/python harness/translate.py > /dev/null && /venv/bin/python harness/translate_logic.py > /dev/null && cd lean && lake build SshAudit driver ' + ' '.join(sorted(set(all_modules))),
     'hooks': {'guard': 'JTESTA_SSH_AUDIT_VERIF', 'enable': 'no hooks are needed: the harness substitutes socket/select/getaddrinfo/OutputBuffer from outside (Python); the guard name is reserved',
               'baseline_off_cmd': BASELINE, 'source_commits': [], 'add_only': True},
     'engines': [{'name': 'lean4-proof+correspondence', 'path': 'harness/check.py',
